@@ -95,9 +95,9 @@ Print Assumptions C21_walk_spec.
 
 (* ---- CFG construction ------------------------------------------------------------------------- *)
 
-(* every read/del of a name that some execution of the body performs while the name is unbound is a
-   reference statement of the graph built by the repaired ControlFlowAnalysis, at a position that a
-   path from the entry point reaches with the name unbound.  Executions: any outcome of conditions,
+(* every evaluation of a NameNode (read, assignment target, del) that some execution of the body
+   performs while the name is unbound is a statement of the graph built by the repaired
+   ControlFlowAnalysis, at a position that a path from the entry point reaches with the name unbound.  Executions: any outcome of conditions,
    loop counts, raise points, handler matches; break/continue/return/raise through any nesting of
    try/finally, try/except and loops. *)
 Theorem C21_cfg_covers_paths : forall args body tr o s2,
@@ -108,15 +108,16 @@ Proof. exact P_FlowCFG_Sim.cfg_covers_paths. Qed.
 Print Assumptions C21_cfg_covers_paths.
 
 (* ... and check_definitions (M_Flow.analyse on that graph, after detaching unreachable blocks) gives
-   that reference the cf_maybe_null hint, so NameNode emits the run-time check *)
+   that statement the cf_maybe_null hint, so NameNode emits the run-time check (reads, del) resp. the
+   NULL-tolerant decref of the old value (assignments) *)
 Theorem C21_unbound_use_is_checked : forall ne args body tr o s2 l e r,
   wf false body = true ->
   graph_ok ne (build true args body) = true ->
   exec (IS body) (bind args s_init) tr o s2 ->
   In (l, e, false) tr ->
   analyse (cfg_of ne (build true args body)) = Some r ->
-  exists b k c', stat_at (build true args body) b k = Some (LRef l e) /\
-                 cls_at ne (build true args body) r b k = Some c' /\ c' <> Bound.
+  exists b k s c', stat_at (build true args body) b k = Some s /\ label_of s = l /\ entry_of s = e /\
+                   cls_at ne (build true args body) r b k = Some c' /\ c' <> Bound.
 Proof. exact P_FlowCFG_Bridge.unbound_use_is_checked. Qed.
 Print Assumptions C21_unbound_use_is_checked.
 
@@ -125,8 +126,8 @@ Theorem C21_no_hint_no_unbound_use : forall ne args body tr o s2 l e r,
   graph_ok ne (build true args body) = true ->
   exec (IS body) (bind args s_init) tr o s2 ->
   analyse (cfg_of ne (build true args body)) = Some r ->
-  (forall b k, stat_at (build true args body) b k = Some (LRef l e) ->
-               cls_at ne (build true args body) r b k = Some Bound) ->
+  (forall b k s, stat_at (build true args body) b k = Some s -> label_of s = l ->
+                 cls_at ne (build true args body) r b k = Some Bound) ->
   ~ In (l, e, false) tr.
 Proof. exact P_FlowCFG_Bridge.no_hint_no_unbound_use. Qed.
 Print Assumptions C21_no_hint_no_unbound_use.
